@@ -1224,6 +1224,9 @@ func (in *Interp) lookup(fr *frame, instr *ssa.Lookup, x, idx value) value {
 }
 
 func (in *Interp) mapSet(fr *frame, m *omap, key, v value) {
+	if in.globalMaps != nil && in.path != nil && in.globalMaps[m] && in.locksHeld == 0 && len(in.globalWrites) < 32 {
+		in.globalWrites = append(in.globalWrites, "map write in "+fnName(fr))
+	}
 	i := in.mapFind(fr, m, key)
 	if i >= 0 {
 		if in.logging {
